@@ -36,7 +36,7 @@ DYADIC_SHAPES = ((4, 1, 32), (8, 2, 32))
 
 
 def REQUIRED(tier):
-    return ["histories", "hook_checks", "rotation_checks", "law:repeat_noop", "law:return_restores", "law:history_independence", "ops:update_dm", "ops:update_period", "shape:single_subband", "shape:single_subint", "layout:F", "layout:transposed_view", "layout:strided_view", "dyadic_histories", "exact_half_bin_states", "ops:centre_copy_retuned", "nchans:64", "nchans:128", "ppm_histories", "overresolved_histories", "histories:warnings_as_errors"]
+    return ["histories", "hook_checks", "rotation_checks", "law:repeat_noop", "law:return_restores", "law:history_independence", "ops:update_dm", "ops:update_period", "shape:single_subband", "shape:single_subint", "layout:F", "layout:transposed_view", "layout:strided_view", "dyadic_histories", "exact_half_bin_states", "ops:centre_copy_retuned", "nchans:64", "nchans:128", "ppm_histories", "overresolved_histories", "histories:warnings_as_errors", "cubes:with_empty_phase_bins"]
 
 
 def EXHAUSTIVE(tier):
@@ -57,7 +57,7 @@ def cases(tier, seed):
                 yield {"kind": "lattice", "shape": si, "L": L, "prefix": [first, second]}
     rng = np.random.default_rng([seed, 1717])
     for k in range(100 if tier == "quick" else 2000):
-        yield {"kind": "random", "shape": int(rng.integers(0, 3)), "hseed": int(seed) * 100003 + k, "len": 50, "layout": LAYOUTS[k % 4], "nchans": [64, 128, 32][k % 3]}
+        yield {"kind": "random", "shape": int(rng.integers(0, 3)), "hseed": int(seed) * 100003 + k, "len": 50, "layout": LAYOUTS[k % 4], "nchans": [64, 128, 32][k % 3], "nan_bins": k % 5 == 1}
     for si in range(len(PPM_SHAPES)):
         for first in range(9):
             yield {"kind": "ppm", "shape": si, "first": first}
@@ -80,6 +80,12 @@ def _hdr():
     return Header(filename="x.fil", data_type="filterbank", nchans=_cfg["nchans"], foff=-1.0, fch1=400.0, nbits=8, tsamp=_cfg["tsamp"], tstart=58000.0, nsamples=_cfg["nsamples"])
 
 
+def _eq(a, b):
+    return np.array_equal(a, b, equal_nan=True)
+
+
+_nan = {"on": False}   # cubes with empty phase bins (NaN where a bin received no samples), as folding short sub-integrations produces them
+
 LAYOUTS = ("C", "F", "transposed_view", "strided_view")
 _layout = {"cur": "C"}
 
@@ -91,6 +97,14 @@ def _cube(shape):
 
     nint, nband, nbins = shape
     base = (np.arange(nint * nband * nbins, dtype=np.float32).reshape(shape) * 3 + 1)
+    if _nan["on"]:
+        for i in range(nint):
+            for j in range(nband):
+                base[i, j, (i + 2 * j) % nbins] = np.nan          # one empty bin per profile, in bin 0 for some of them
+                if (i + j) % 3 == 0:
+                    base[i, j, (i + 2 * j + 1 + nbins // 2) % nbins] = np.nan
+        if nint * nband > 2:
+            base[nint - 1, nband - 1, :] = np.nan                   # and one profile that received no samples at all
     lay = _layout["cur"]
     src = base.copy()   # never alias the oracle's copy (numpy returns views when a layout conversion is a no-op)
     if lay == "C":
@@ -152,8 +166,15 @@ def check_state(ctx, fd, base, shape, dm, period, visited, rec, step):
         for j in range(nband):
             ctx.count("rotation_checks")
             prof, orig = cur[i, j], base[i, j]
-            k = int(np.flatnonzero(orig == prof[0])[0]) if np.any(orig == prof[0]) else None
-            if k is None or not np.array_equal(np.roll(orig, -k), prof):
+            fin = np.flatnonzero(np.isfinite(prof))
+            if fin.size == 0:
+                if np.all(np.isnan(orig)):
+                    continue                     # a profile without samples: every rotation of it is the same profile
+                ctx.violation("not-a-rotation", f"step {step}: profile (subint {i}, subband {j}) lost all its values", rec)
+                return False
+            i0 = int(fin[0])                     # the values other than NaN are distinct: the first finite bin identifies the rotation
+            k = (int(np.flatnonzero(orig == prof[i0])[0]) - i0) % nbins if np.any(orig == prof[i0]) else None
+            if k is None or not _eq(np.roll(orig, -k), prof):
                 ctx.violation("not-a-rotation", f"step {step}: profile (subint {i}, subband {j}) is not a rotation of the original profile", rec)
                 return False
             ok = any((a + b - k) % nbins == 0 for a in A[j] for b in B[i])
@@ -167,6 +188,9 @@ def check_state(ctx, fd, base, shape, dm, period, visited, rec, step):
 
 
 def run_history(ctx, shape, ops, rec):
+    _nan["on"] = bool(rec.get("nan_bins"))
+    if _nan["on"]:
+        ctx.count("cubes:with_empty_phase_bins")
     fd, base = _cube(shape)
     P0 = _cfg["P0"]
     dm, period = DM0, P0
@@ -186,7 +210,7 @@ def run_history(ctx, shape, ops, rec):
                 ctx.count("ops:centre_copy_retuned")
             except Exception:  # noqa: BLE001
                 ctx.count("ops:centre_unavailable")   # profiles shorter than the matched-filter templates
-            if not np.array_equal(before, np.asarray(fd.data)):
+            if not _eq(before, np.asarray(fd.data)):
                 ctx.violation("cube-changed-by-derived-copy", f"step {step}: re-tuning the cube returned by centre() changed the original cube", rec)
                 return False
             if not check_state(ctx, fd, base, shape, dm, period, visited, rec, step):
@@ -205,7 +229,7 @@ def run_history(ctx, shape, ops, rec):
                     fd.update_period(val)
         except Warning:
             ctx.count("ops:update_refused_under_strict_warnings")
-            if not np.array_equal(before, np.asarray(fd.data)) or fd.dm != dm or fd.period != period:
+            if not _eq(before, np.asarray(fd.data)) or fd.dm != dm or fd.period != period:
                 ctx.violation("refused-update-left-traces", f"step {step}: update_{kind}({val!r}) raised a warning-as-error but the cube / reported values changed", rec)
                 return False
             if not check_state(ctx, fd, base, shape, dm, period, visited, rec, step):
@@ -230,14 +254,14 @@ def run_history(ctx, shape, ops, rec):
         targets.add((kind, val))
         if same:
             ctx.count("law:repeat_noop")
-            if not np.array_equal(before, np.asarray(fd.data)):
+            if not _eq(before, np.asarray(fd.data)):
                 ctx.violation(f"repeat-not-noop:{kind}", f"step {step}: repeating update_{kind}({val!r}) changed the cube", rec)
                 return False
         if not check_state(ctx, fd, base, shape, dm, period, visited, rec, step):
             return False
         if dm == DM0 and period == P0:
             ctx.count("law:return_restores")
-            if not np.array_equal(np.asarray(fd.data), base):
+            if not _eq(np.asarray(fd.data), base):
                 ctx.violation("return-does-not-restore", f"step {step}: back at the folding values but the cube differs from the original", rec)
                 return False
     # history independence, formula-free: a fresh cube taken straight to the final targets (either order) must equal this one
@@ -249,7 +273,7 @@ def run_history(ctx, shape, ops, rec):
             else:
                 fresh.update_period(period)
         ctx.count("law:history_independence")
-        if not np.array_equal(np.asarray(fresh.data), np.asarray(fd.data)):
+        if not _eq(np.asarray(fresh.data), np.asarray(fd.data)):
             nd = int(np.sum(np.any(np.asarray(fresh.data) != np.asarray(fd.data), axis=2)))
             ctx.violation("history-dependence", f"cube after the history differs in {nd} profiles from a fresh cube taken directly to dm={dm}, period={period!r} (order {order})", rec)
             return False
@@ -363,7 +387,7 @@ def run_case(case, ctx):
         else:
             ops.append(("p", float(P0 * (1 + rng.choice([0.0, float(rng.uniform(-1e-3, 1e-3)), 1e-4, -1e-4, float(rng.uniform(-2e-5, 2e-5)), float(rng.uniform(-5e-3, 5e-3))])))))
     rec = {"kind": "history", "shape": case["shape"], "ops": [list(o) for o in ops], "layout": _layout["cur"], "nchans": case.get("nchans", 64),
-           "strict_warnings": bool(case["hseed"] % 4 == 0)}
+           "strict_warnings": bool(case["hseed"] % 4 == 0), "nan_bins": bool(case.get("nan_bins"))}
     if rec["strict_warnings"]:
         ctx.count("histories:warnings_as_errors")
     if run_history(ctx, shape, ops, rec) and case["hseed"] % 25 == 0:
